@@ -227,7 +227,7 @@ fn replay(tpl_path: &str, cases_path: &str, out_path: &str) {
     }
     let mut out = NdWriter::create(out_path);
     let mut stats: HashMap<&'static str, u64> = HashMap::new();
-    let mut bump = |k: &'static str, stats: &mut HashMap<&'static str, u64>| *stats.entry(k).or_insert(0) += 1;
+    let bump = |k: &'static str, stats: &mut HashMap<&'static str, u64>| *stats.entry(k).or_insert(0) += 1;
     let mut n_cases = 0u64;
     let mut n_mism = 0u64;
     let mut table_bytes = 0usize;
@@ -241,8 +241,8 @@ fn replay(tpl_path: &str, cases_path: &str, out_path: &str) {
         let key = case["id"].to_string();
         let input = &case["in"];
         let exp = enc::arr(&case["exp"]);
-        let mut report = |stage: &str, want: Value, got: Value, out: &mut NdWriter| {
-            out.write(&json!({"id": case["id"], "in": input, "stage": stage, "want": want, "got": got}));
+        let report = |stage: &str, want: Value, got: Value, out: &mut NdWriter| {
+            out.write(&json!({"id": case["id"], "in": input, "stage": stage, "want": want, "got": got, "selftest": case["selftest"]}));
         };
         let p = match prepared.get_mut(&key) {
             Some(Ok(p)) => p,
@@ -256,6 +256,9 @@ fn replay(tpl_path: &str, cases_path: &str, out_path: &str) {
         // vacuity counters over the specification's expectation
         if exp.len() > 1 {
             bump("cases_with_several_conformant_outcomes", &mut stats);
+        }
+        if exp.iter().any(|e| enc::arr(&e["infos"]).iter().any(|i| enc::int(&i["k"]) != 0 || i["pl"]["t"] != "N")) {
+            bump("cases_with_some_adjustment_expected", &mut stats);
         }
         for i in enc::arr(&exp[0]["infos"]) {
             match i["pl"]["t"].as_str().unwrap_or("") {
@@ -302,13 +305,13 @@ fn replay(tpl_path: &str, cases_path: &str, out_path: &str) {
                                 if &got != want {
                                     ok = false;
                                     out.write(&json!({"id": case["id"], "in": input, "stage": format!("pos-{}", dir),
-                                        "want": want, "got": got, "raw": raw_positions_json(ps), "infos": sh.infos}));
+                                        "want": want, "got": got, "raw": raw_positions_json(ps), "infos": sh.infos, "selftest": case["selftest"]}));
                                 }
                             }
                             Err(e) => {
                                 ok = false;
                                 out.write(&json!({"id": case["id"], "in": input, "stage": format!("pos-{}", dir),
-                                    "want": want, "got": e, "infos": sh.infos}));
+                                    "want": want, "got": e, "infos": sh.infos, "selftest": case["selftest"]}));
                             }
                         }
                     }
